@@ -1,3 +1,15 @@
+// Verification hooks (compiled only with `--cfg bma400_verif`): visit every shadowed register
+#[cfg(bma400_verif)]
+macro_rules! verif_visit_fields {
+    ($self:ident, $f:ident, $($field:ident : $ty:ty),+) => {
+        $(
+            if let Some(v) = $f(<$ty as crate::registers::ReadReg>::ADDR, $self.$field.bits()) {
+                $self.$field = <$ty>::from_bits_truncate(v);
+            }
+        )+
+    };
+}
+
 mod accel_config;
 use accel_config::AccConfig;
 mod int_config;
@@ -131,5 +143,24 @@ impl Config {
         interface.write_register(saved.fifo_config.get_config0())?;
         self.fifo_config.set_config0(saved.fifo_config.get_config0());
         Ok(())
+    }
+}
+
+#[cfg(bma400_verif)]
+impl Config {
+    /// Calls `f(address, shadow byte)` for each of the shadowed registers; a `Some(v)` answer replaces the shadow byte
+    pub(crate) fn verif_visit(&mut self, f: &mut dyn FnMut(u8, u8) -> Option<u8>) {
+        self.acc_config.verif_visit(f);
+        self.int_config.verif_visit(f);
+        self.int_pin_config.verif_visit(f);
+        self.fifo_config.verif_visit(f);
+        self.auto_lp_config.verif_visit(f);
+        self.auto_wkup_config.verif_visit(f);
+        self.wkup_int_config.verif_visit(f);
+        self.orientch_config.verif_visit(f);
+        self.gen1int_config.verif_visit(f);
+        self.gen2int_config.verif_visit(f);
+        self.actchg_config.verif_visit(f);
+        self.tap_config.verif_visit(f);
     }
 }
